@@ -382,6 +382,106 @@ def check_run(libname, wrap_c, wrap_f, decl_index, decl_cf, cfg, res):
     return None
 
 
+# ---------------------------------------------------------------------------- kernel 3: the five directory options
+DIR_OPTS = ["outdir", "outdir_c_fortran", "outdir_python", "outdir_lua", "outdir_yaml"]
+
+
+def run_main_dirs(libname, given):
+    """real main_with_args; `given` says which of the five directory options are on the command line"""
+    import argparse
+    import shutil
+    import tempfile
+    from shroud import main as smain, wrapc, wrapp
+    import shroud.util as U
+    import yaml
+    tmp = tempfile.mkdtemp(prefix="c15_")
+    cwd = os.getcwd()
+    files = {}
+    try:
+        os.chdir(tmp)
+        d = pipeline.load_yaml(cc.LIBS[libname])
+        d.setdefault("options", {}).update({"wrap_python": True, "wrap_lua": True})
+        with open("lib.yaml", "w") as f:
+            f.write(yaml.safe_dump(d))
+        dirs = {}
+        for o in DIR_OPTS:
+            dirs[o] = os.path.join(tmp, "D_" + o) if given[o] else ""
+            if dirs[o]:
+                os.mkdir(dirs[o])
+
+        def mem_open(path, mode="r", *a, **k):
+            if "w" in mode:
+                return pipeline.MemFile(files, path)
+            return open(path, mode, *a, **k)
+        U.open = mem_open
+        U.print = lambda *a, **k: None
+        pipeline._restore_tables()
+        wrapc.Wrapc.capsule_code, wrapc.Wrapc.capsule_order, wrapc.Wrapc.capsule_include = {}, [], {}
+        wrapp.Wrapp.capsule_code, wrapp.Wrapp.capsule_order = {}, []
+        try:
+            args = argparse.Namespace(cmake="", cfiles="", ffiles="", filename=["lib.yaml"], logdir="", outdir=dirs["outdir"],
+                                      outdir_c_fortran=dirs["outdir_c_fortran"], outdir_lua=dirs["outdir_lua"],
+                                      outdir_python=dirs["outdir_python"], outdir_yaml=dirs["outdir_yaml"], path=[],
+                                      write_helpers="", write_statements="", yaml_types="", write_version=False,
+                                      option=[], language=None)
+            smain.main_with_args(args)
+        finally:
+            del U.open
+            del U.print
+    finally:
+        os.chdir(cwd)
+        shutil.rmtree(tmp, ignore_errors=True)
+    return {(os.path.relpath(f, tmp) if os.path.isabs(f) else f): "".join(p) for f, p in files.items()}, \
+        {o: (os.path.relpath(v, tmp) if v else "") for o, v in dirs.items()}
+
+
+def dirs_verdict(files, dirs):
+    want = {"c": dirs["outdir_c_fortran"] or dirs["outdir"], "fortran": dirs["outdir_c_fortran"] or dirs["outdir"],
+            "python": dirs["outdir_python"] or dirs["outdir"], "lua": dirs["outdir_lua"] or dirs["outdir"],
+            "yaml": dirs["outdir_yaml"] or dirs["outdir"]}
+    for f in sorted(files):
+        k = kind_of(f)
+        if k in want:
+            got = os.path.dirname(f)
+            if got != want[k]:
+                return "%s file %s is written to %r, the command line designates %r for it" % (k, os.path.basename(f), got or ".", want[k] or ".")
+    for k in ("c", "fortran", "python", "lua"):
+        if not any(kind_of(f) == k for f in files):
+            return "no %s file was written" % k
+    return None
+
+
+class DirsHarness(object):
+    """--outdir / --outdir-c-fortran / --outdir-python / --outdir-lua / --outdir-yaml through the real command-line
+    entry point: which of the five are given is symbolic (32 combinations); every file must land in the directory
+    the command line designates for its kind."""
+
+    def __init__(self, libname="clib", twin=False):
+        self.libname, self.twin = libname, twin
+
+    def run(self, e):
+        self.given = {o: bool(e.branch(z3.Bool("given_" + o))) for o in DIR_OPTS}
+        return run_main_dirs(self.libname, self.given)
+
+    def witness(self, what):
+        return {"kernel": "dirs", "library": self.libname, "given": self.given, "what": what}
+
+    def judge(self, e, kind, value):
+        if kind == "exc":
+            return {"cls": "dirs", "violation": self.witness("exception %s: %s" % (type(value).__name__, str(value)[:200])), "vkey": "dirs:exc"}
+        fail = dirs_verdict(*value)
+        if self.twin and not fail:
+            fail = "reachability twin"
+        if fail:
+            import re as _re
+            return {"cls": "dirs", "violation": self.witness(fail), "vkey": "dirs:" + _re.sub(r"D_\w+", "D", fail)[:60]}
+        return {"cls": "dirs", "sample": self.witness(None)}
+
+
+def make_dirs(**kw):
+    return DirsHarness(**kw)
+
+
 def make_promote(**kw):
     return PromoteHarness(**kw)
 
@@ -393,6 +493,11 @@ def make_pipe(**kw):
 def confirm(w):
     if w.get("kernel") == "promote":
         return confirm_promote(w)
+    if w.get("kernel") == "dirs":
+        try:
+            return dirs_verdict(*run_main_dirs(w["library"], w["given"]))
+        except Exception as ex:
+            return "exception %s: %s" % (type(ex).__name__, ex)
     flags = dict(w.get("decl_cf") or {})
     if w["decl_index"] is not None:
         flags["wrap_python"] = w["options"]["decl.wrap_python"]
@@ -425,6 +530,8 @@ def main():
         for tree in sorted(TREES):
             specs.append(("harness.C15", "make_promote", dict(lang=lang, tree=tree)))
             labels.append("promote_wrap kernel, tree %s, wrap_%s symbolic on %d nodes" % (tree, lang, len(tree_nodes(TREES[tree]))))
+    specs.append(("harness.C15", "make_dirs", dict(libname="clib")))
+    labels.append("command-line directory options (main_with_args), clib")
     libs = ["geom", "clib", "strs"] if tier == "quick" else ["geom", "clib", "strs", "nest", "plain"]
     cfs = [(True, True), (True, False), (False, False)]
     for lib in libs:
